@@ -11,6 +11,12 @@ def gen_transform(rng, idx, pool=POOL, allow_params=True, allow_opt=True, avail=
     outs = rng.sample(pool, n_out)
     if rng.random() < 0.06:
         outs.append('id')      # a layer may redefine the key
+    redefine = None
+    if ghost and rng.random() < 0.3:
+        # a field of the same name as one that was left out quietly, built on it (f(f)): a name collision with the hidden optional node
+        redefine = rng.choice(sorted(ghost))
+        if redefine not in outs:
+            outs.append(redefine)
     full = pool
     if avail is not None and rng.random() < p_avail:
         pool = sorted(avail) or pool
@@ -36,7 +42,9 @@ def gen_transform(rng, idx, pool=POOL, allow_params=True, allow_opt=True, avail=
     fields = {}
     for o in outs:
         args = sample(rng.choice([0, 1, 1, 2, 2]))
-        if ghost and rng.random() < 0.2:
+        if o == redefine:
+            args = [o]
+        elif ghost and rng.random() < 0.2:
             # a field that an earlier layer defined and that was left out quietly since (optional, unreachable input)
             args = [rng.choice(sorted(ghost))] + [a for a in args[:1] if a not in ghost]
         if o == 'id':
@@ -47,7 +55,7 @@ def gen_transform(rng, idx, pool=POOL, allow_params=True, allow_opt=True, avail=
         if (cargs or defaults) and rng.random() < 0.6:
             args.append('_k')
         spec = {'args': args}
-        if allow_opt and rng.random() < p_opt:
+        if allow_opt and rng.random() < p_opt and o != redefine:
             spec['opt'] = True
         if rng.random() < 0.08 and o != 'id':
             spec['meta'] = True       # a property of the layer: `layer.name` is the value, not a function
@@ -109,7 +117,13 @@ def gen_stack(rng, max_layers=6, source=None, caches=True, p_avail=0.85, p_opt=0
         ghost = sorted(defined - avail) if avail is not None else ()
         prev_ghost = bool(layers) and any(a in defined and avail is not None and a not in avail
                                           for sp in layers[-1].get('fields', {}).values() for a in sp['args'])
-        if caches and layers and (r < 0.15 or (prev_ghost and r < 0.6)):
+        redefined = bool(layers) and any(sp['args'] == [f] and f in ghost for f, sp in layers[-1].get('fields', {}).items()) \
+            if avail is not None else False
+        if redefined and r < 0.7:
+            # a layer that merely passes everything on, after a layer that re-defined a left-out name
+            layers.append({'k': 'transform', 'cls': f'TP{i + 1}', 'fields': {}, 'params': {}, 'cargs': {}, 'defaults': {},
+                           'inherit': rng.choice([True, True, sorted(defined)])})
+        elif caches and layers and (r < 0.15 or (prev_ghost and r < 0.6)):
             layers.append({'k': 'ram', 'names': rng.choice([None, rng.sample(POOL, 2)]), 'size': rng.choice([None, 2])})
         elif r < 0.22:
             names = rng.sample(POOL, rng.choice([1, 2]))
